@@ -15,8 +15,8 @@ from .common import case_from_cfg
 CHILD = os.path.join(os.path.dirname(os.path.dirname(os.path.abspath(__file__))), "c11_child.py")
 
 
-def run_child(d: str, seed: int, mp: bool, renum: str, order: str, files: List[str]) -> Dict[str, Any]:
-    env = dict(os.environ, PYTHONHASHSEED=str(seed), HTA_VERIF="1", VF_ORDER=order)
+def run_child(d: str, seed: int, mp: bool, renum: str, order: str, files: List[str], hist: str = "") -> Dict[str, Any]:
+    env = dict(os.environ, PYTHONHASHSEED=str(seed), HTA_VERIF="1", VF_ORDER=order, VF_C11_HIST=hist)
     if order == "rev":     # later ranks finish first
         env["HTA_VERIF_DELAYS"] = json.dumps({f"parse:{os.path.basename(f)}": 0.15 * (len(files) - k) for k, f in enumerate(files)})
     elif order == "fwd":
@@ -69,6 +69,15 @@ class C11(Prop):
                     r0["events"].append({"ph": "X", "cat": "cpu_op", "name": f"aten::u{k}", "pid": e["pid"], "tid": e["tid"] + 50,
                                          "ts": hosts[0]["ts"], "dur": 0, "args": {"External id": 9000 + k}})
                 k += 1
+        if rng.random() < 0.5:
+            # a string used both as a category and as an event name in the same file (a record_function("kernel") block, an operator
+            # literally called "cpu_op"): one symbol, two roles
+            for r in case["ranks"]:
+                if rng.random() < 0.6:
+                    cats = sorted({e["cat"] for e in r["events"] if e.get("ph") == "X" and "dur" in e and e.get("cat") in ("kernel", "cpu_op", "cuda_runtime", "gpu_memcpy")})
+                    hosts = [e for e in r["events"] if e.get("cat") == "cpu_op" and e.get("ph") == "X"]
+                    if cats and hosts:
+                        rng.choice(hosts)["name"] = rng.choice(cats)
         case["dictmode"] = rng.choice(["dir", "dict_same", "dict_perm"]) if len(case["ranks"]) >= 2 else "dir"
         case["strip_meta"] = rng.random() < 0.4
         case["seeds"] = [0, 1, 2, 3] if tier == "thorough" else [0, 1, 2]
@@ -99,8 +108,14 @@ class C11(Prop):
                 cfgs.append((s, True, "none", "rev" if (multi and s % 2 == 1) else "fwd" if multi else ""))
             for rn in case["renum"]:
                 cfgs.append((0, False, rn, ""))
-            for s, mp, rn, order in cfgs:
-                obs["configs"].append(run_child(d, s, mp, rn, order, files))
+            cfgs = [c + ("",) for c in cfgs]
+            if multi:
+                # call histories on one Trace object: one rank parsed alone first (its vocabulary seeds the table), then everything loaded
+                nr = len(files)
+                cfgs.append((0, False, "none", "", str(nr - 1)))
+                cfgs.append((1, True, "none", "fwd", str(nr // 2)))
+            for s, mp, rn, order, hist in cfgs:
+                obs["configs"].append(run_child(d, s, mp, rn, order, files, hist))
         return obs
 
     def nontrivial(self, case, obs):
